@@ -113,8 +113,8 @@ class Tr:
                 n = kids(n)[-1]
             elif k == "ImplicitCastExpr" and n.get("castKind") in NOOP_CASTS:
                 n = kids(n)[0]
-            elif k == "CXXStaticCastExpr" and n.get("castKind") == "NoOp":
-                n = kids(n)[0]
+            elif k in ("CXXStaticCastExpr", "CStyleCastExpr", "CXXFunctionalCastExpr") and n.get("castKind") == "NoOp":
+                n = kids(n)[-1]               # the conversion itself is the ImplicitCastExpr below it
             else:
                 return n
 
